@@ -41,6 +41,7 @@ type Sock struct {
 	Full         bool // last write was short or EAGAIN: socket buffer full (an EPOLLOUT edge is due later)
 	EagainStreak int
 	NoSpace      bool // harness knob: the peer does not read at all, every write says EAGAIN
+	AcceptAll    bool // harness knob: the peer reads everything at once, every write is accepted completely
 	WriteErr     unix.Errno
 	PeerGone     bool
 
@@ -221,6 +222,10 @@ func writeBudget(s *Sock, fd int, want int, call string) (int, unix.Errno) {
 		return -1, unix.EAGAIN
 	}
 	s.Full = false
+	if s.AcceptAll {
+		s.EagainStreak = 0
+		return want, 0
+	}
 	n := vNondetInt("write.n")
 	vAssume(0 <= n && n <= want)
 	if n == 0 {
